@@ -83,6 +83,13 @@ def scenarios(c):
                     nw += 1
                     if nw % 9 == 0:
                         u[0] = dict(u[0], wfault=("eintr", "eagain", "error")[(nw // 9) % 3])
+            # every thirteenth plain write happens while the efivars directory does not exist: one failed open, an error, nothing else
+            nw = 0
+            for u in units:
+                if u[0]["op"] == "write" and u[0]["api"] in ("obj", "legacy") and not u[0].get("wfault"):
+                    nw += 1
+                    if nw % 13 == 5:
+                        u[0] = dict(u[0], nodir=True)
             rng.shuffle(units)
             steps = [st for u in units for st in u]
             run = 60 if c.quick else 200
